@@ -368,3 +368,54 @@ Proof.
   rewrite inject_Z_plus in *. change (inject_Z 1) with 1 in *.
   split; [lia|]. split; lra.
 Qed.
+
+(* ---------------------------------------------------------------------------------------- *)
+(* non-vacuity: an optimiser that satisfies the specification, and concrete runs             *)
+(* ---------------------------------------------------------------------------------------- *)
+Definition lsq_identity (f : list Q -> list Q) (x0 : list Q) (lo hi : list ext) : list Q := x0.
+
+Lemma precondition_none x0 lo hi : lsq_precondition x0 lo hi = None -> within lo x0 hi = true /\ strict lo hi = true.
+Proof.
+  unfold lsq_precondition. destruct (negb _); [discriminate|]. destruct (strict lo hi); [|discriminate].
+  destruct (within lo x0 hi); [|discriminate]. intros _. split; reflexivity.
+Qed.
+
+Lemma identity_lsq_spec : lsq_spec lsq_identity /\ lsq_stationary lsq_identity.
+Proof.
+  split.
+  - intros f x0 lo hi Hpre. unfold lsq_identity. split; [apply (precondition_none _ _ _ Hpre)|apply Qle_refl].
+  - intros f x0 lo hi _ _. reflexivity.
+Qed.
+
+(* a 4 x 4 Cartesian grid, periodic along x; a cylindrical grid with periodic z *)
+Definition ex_cart : rgrid :=
+  {| g_family := FCart; g_axes := [ {| ncell := 4; alo := 0; ahi := 4; aper := true |};
+                                    {| ncell := 4; alo := 0; ahi := 4; aper := false |} ] |}.
+Definition ex_cyl : rgrid :=
+  {| g_family := FCyl; g_axes := [ {| ncell := 3; alo := 0; ahi := 3; aper := false |};
+                                   {| ncell := 8; alo := 0; ahi := 4; aper := true |} ] |}.
+Definition ex_sph : droplet := {| d_cls := RSpherical; d_pos := [5; 1]; d_rad := 1; d_width := None; d_amp := [] |}.
+Definition ex_axi : droplet :=
+  {| d_cls := RP3DAxi; d_pos := [3 # 10; 4 # 10; -(1 # 2)]; d_rad := 1; d_width := Some (1 # 2); d_amp := [0; 1 # 10] |}.
+(* an "optimiser" that moves the free droplet parameters and the intensities: the answer of the cylindrical run *)
+Definition ex_lsq_cyl (f : list Q -> list Q) (x0 : list Q) (lo hi : list ext) : list Q :=
+  [-(1 # 4); 5 # 4; 3 # 4; 1 # 20; -(1 # 5); 1 # 10; 9 # 10].
+
+(* results are compared up to == on rationals (the model does not reduce fractions) *)
+Definition res_is (r : rres) (d : droplet) : bool :=
+  match r with ROk m => droplet_agree [0; 1; 2]%nat m d | RErr _ => false end.
+
+Lemma ex_runs :
+  res_is (refine lsq_identity (fun _ => 0) (fun _ _ _ => []) ex_cart (Some (0, 1)) None None true ex_sph)
+    {| d_cls := RDiffuse; d_pos := [1; 1]; d_rad := 1; d_width := Some 1; d_amp := [] |} = true /\
+  res_is (refine ex_lsq_cyl (fun _ => 1 # 2) (fun _ _ _ => []) ex_cyl (Some (0, 1)) (Some 0) (Some 1) true ex_axi)
+    {| d_cls := RP3DAxi; d_pos := [3 # 10; 4 # 10; 15 # 4]; d_rad := 5 # 4; d_width := Some (3 # 4);
+       d_amp := [1 # 20; -(1 # 5)] |} = true /\
+  refine lsq_identity (fun _ => 0) (fun _ _ _ => []) ex_cart (Some (1, 1)) None None true ex_sph = RErr EBoundsNotStrict /\
+  refine lsq_identity (fun _ => 0) (fun _ _ _ => []) ex_cart None None (Some 1) false ex_sph = RErr EEmptyRegion /\
+  wf ex_sph /\ wf ex_axi /\ valid ex_cart ex_sph /\ valid ex_cyl ex_axi /\ wf_grid ex_cart /\ wf_grid ex_cyl.
+Proof.
+  repeat split; try (vm_compute; reflexivity); try (intros; discriminate); try (vm_compute; intros; discriminate).
+  - repeat constructor.
+  - repeat constructor; vm_compute; intros; discriminate.
+Qed.
